@@ -8,10 +8,12 @@ from __future__ import annotations
 
 import builtins
 import os
+import warnings
 import sys
 import types
 from typing import Dict
 
+warnings.filterwarnings("ignore")
 sys.path.insert(0, os.path.dirname(os.path.abspath(__file__)))
 import symtorch  # noqa: E402
 
